@@ -80,8 +80,10 @@ impl Prechecker for DefaultPrechecker {
                 None
             }
             PrecheckData::NotCheck { pinned_or_king } => {
-                if !pinned_or_king.has(mv.src()) {
+                if !pinned_or_king.has(mv.src()) && mv.kind() != MoveKind::Enpassant {
                     // The piece is not pinned and is not a king, so the move is definitely legal.
+                    // Enpassant is an exception: it also removes the captured pawn, which may
+                    // open a line to the king, so it always needs the full check.
                     Some(true)
                 } else {
                     None
